@@ -77,7 +77,7 @@ var c17Enum = func() [][]int {
 				if ph == 1 && !strings.HasPrefix(c17Outcomes[oc], "found-") && c17Outcomes[oc] != "connecting-ok" {
 					continue // the PROXY header is only written by a relay
 				}
-				out = append(out, []int{1, oc, fam, ph, 0, 0, 0}) // fault-free
+				out = append(out, []int{1, oc, fam, ph, 0}) // fault-free
 				for si, s := range c17Sites {
 					for sh := 0; sh < c17Shapes(s.op); sh++ {
 						out = append(out, []int{1, oc, fam, ph, 1, si, sh})
@@ -95,6 +95,9 @@ func TestVerifC17(t *testing.T) {
 		Scenario: c17Scenario,
 		EnumN:    func(string) int { return len(c17Enum) },
 		EnumAt:   func(_ string, i int) []int { return c17Enum[i] },
+		EnumLabels: func(_ string, i int) []string {
+			return []string{"mode", "outcome", "family", "proxy-header", "nfaults", "site", "shape"}[:len(c17Enum[i])]
+		},
 		Runs:     map[string]int{"quick": 10000, "thorough": 600000},
 		Real:     []string{"cmd/application handleNewTCPConn incl. both generalizeErr call paths and every log statement", "pkg/station/lib Proxy / halfPipe / tunnelStats summaries / generalizeErr", "transports (obfs4 server handshake I/O on the client connection)", "ingest pipeline log lines (registration path)", "pkg/station/log level filtering at the default level"},
 		Stub:     []string{"TCP connections with fault plans (simnet; errors shaped like the net package's, whose text embeds both endpoints)", "covert echo host, liveness table, detector recorder", "stdout/stderr/std logger are redirected to a capture file in TestMain before any logger exists"},
